@@ -42,7 +42,7 @@ type c09 struct {
 	inserted, faultAfter, queryAfter bool
 }
 
-var c09Kinds = []string{"add", "addhash", "addop", "match", "matchop", "isloaded", "msg", "unload", "reload_new", "reload_old", "restart", "newfilter", "load"}
+var c09Kinds = []string{"add", "addhash", "addop", "match", "matchop", "isloaded", "msg", "unload", "reload_new", "reload_old", "restart", "newfilter", "load", "reload_populated", "load_populated"}
 
 var c09Lens = []int{1, 1, 2, 3, 4, 7, 8, 9, 16, 31, 255, 256, 4096, 35999, 36000}
 
@@ -72,6 +72,7 @@ func (s *c09) Start(r *kit.Rng, cfg map[string]int64) {
 	// constructors are rare after the first step
 	s.w[11] = min(s.w[11], 1)
 	s.w[12] = min(s.w[12], 1)
+	s.w[14] = min(s.w[14], 1)
 	n := r.Range(2, 12)
 	for i := 0; i < n; i++ {
 		s.items = append(s.items, c09Item(r))
@@ -153,6 +154,9 @@ func (s *c09) Gen(r *kit.Rng) (kit.Op, bool) {
 		if r.Chance(1, 5) {
 			return s.genNewFilter(r), true
 		}
+		if r.Chance(1, 5) {
+			return kit.Op{K: "load_populated", N: append(c09Shape(r), int64(r.Intn(5)), int64(r.U32()))}, true
+		}
 		return kit.Op{K: "load", N: c09Shape(r)}, true
 	}
 	for {
@@ -203,6 +207,9 @@ func (s *c09) Gen(r *kit.Rng) (kit.Op, bool) {
 			return kit.Op{K: k}, true
 		case "reload_new":
 			return kit.Op{K: k, N: c09Shape(r)}, true
+		case "reload_populated", "load_populated":
+			// a message some peer populated: arbitrary bits, unknown items
+			return kit.Op{K: k, N: append(c09Shape(r), int64(r.Intn(5)), int64(r.U32()))}, true
 		case "reload_old":
 			if len(s.msgs) == 0 {
 				continue
@@ -237,6 +244,32 @@ func (s *c09) pickHash(r *kit.Rng) []byte {
 		}
 	}
 	return r.Bytes(32)
+}
+
+// populate fills a fresh message pair with a drawn bit pattern.
+func (s *c09) populate(i int, pattern int, seed uint32) {
+	m := s.msgs[i]
+	var bits []byte
+	n := len(m.mod.Bits)
+	switch pattern {
+	case 0:
+		bits = make([]byte, n)
+	case 1:
+		bits = bytes.Repeat([]byte{0xff}, n)
+	case 2:
+		bits = bytes.Repeat([]byte{0x01}, n) // only bit 0 of each byte
+	case 3:
+		bits = kit.NewRng(uint64(seed)).Bytes(n)
+	default:
+		bits = kit.NewRng(uint64(seed)).Bytes(n)
+		mask := kit.NewRng(uint64(seed) + 1).Bytes(n)
+		for k := range bits {
+			bits[k] &= mask[k] // sparser
+		}
+	}
+	copy(m.mod.Bits, bits)
+	copy(m.real.Filter, bits)
+	s.st.Probe("populated-message-loaded")
 }
 
 func (s *c09) newMsg(n int, hf, tw uint32, fl uint8) int {
@@ -298,17 +331,20 @@ func (s *c09) noteInsert(item []byte) {
 }
 
 func (s *c09) Apply(o kit.Op) *kit.Violation {
-	if s.f == nil && o.K != "load" && o.K != "newfilter" {
+	if s.f == nil && o.K != "load" && o.K != "newfilter" && o.K != "load_populated" {
 		return nil // skipped: no filter yet (possible after shrinking)
 	}
 	isFault := false
 	switch o.K {
-	case "load":
+	case "load", "load_populated":
 		n, hf, tw, fl, ok := shapeOK(o)
 		if !ok {
 			return nil
 		}
 		i := s.newMsg(n, hf, tw, fl)
+		if o.K == "load_populated" {
+			s.populate(i, int(o.Arg(4)), uint32(o.Arg(5)))
+		}
 		s.f = bloom.LoadFilter(s.msgs[i].real)
 		s.setCur(i)
 	case "newfilter":
@@ -411,16 +447,21 @@ func (s *c09) Apply(o kit.Op) *kit.Violation {
 		s.f.Unload()
 		s.setCur(-1)
 		s.st.Fault("unload")
-	case "reload_new":
+	case "reload_new", "reload_populated":
 		n, hf, tw, fl, ok := shapeOK(o)
 		if !ok {
 			return nil
 		}
 		isFault = true
 		i := s.newMsg(n, hf, tw, fl)
+		if o.K == "reload_populated" {
+			s.populate(i, int(o.Arg(4)), uint32(o.Arg(5)))
+			s.st.Fault("reload-populated-message")
+		} else {
+			s.st.Fault("reload-fresh")
+		}
 		s.f.Reload(s.msgs[i].real)
 		s.setCur(i)
-		s.st.Fault("reload-fresh")
 	case "reload_old":
 		if o.H < 0 || o.H >= len(s.msgs) {
 			return nil
